@@ -85,6 +85,7 @@ type Specs struct {
 }
 
 var funcHdrRe = regexp.MustCompile(`^func\s+(.+?)\s*\(([^()]*)\)\s*(?:\(([^()]*)\))?\s*$`)
+var propIDRe = regexp.MustCompile(`^C[0-9][0-9]$`)
 var labelRe = regexp.MustCompile(`^([A-Za-z_][A-Za-z0-9_]*)\s*:([^:].*)$`)
 
 var clauseKeywords = map[string]bool{"func": true, "property": true, "uses": true, "requires": true, "ensures": true, "modifies": true, "allocates": true, "nopanic": true, "checked": true, "trusted": true, "abstract": true, "ghostset": true, "ghostensures": true, "strings": true, "loop": true, "invariant": true, "inline": true, "option": true, "assume": true,
@@ -147,7 +148,7 @@ func parseClause(rest, file string, line int) (*Clause, error) {
 	c := &Clause{File: file, Line: line}
 	if strings.HasPrefix(rest, "[C") {
 		if i := strings.Index(rest, "]"); i > 0 {
-			c.Props = splitList(rest[1:i])
+			c.Props = strings.Fields(strings.ReplaceAll(rest[1:i], ",", " "))
 			rest = strings.TrimSpace(rest[i+1:])
 		}
 	}
@@ -158,8 +159,13 @@ func parseClause(rest, file string, line int) (*Clause, error) {
 	// optional property tags in square brackets: [C01,C03] expr
 	if strings.HasPrefix(rest, "[C") {
 		if i := strings.Index(rest, "]"); i > 0 {
-			c.Props = splitList(rest[1:i])
+			c.Props = strings.Fields(strings.ReplaceAll(rest[1:i], ",", " "))
 			rest = strings.TrimSpace(rest[i+1:])
+		}
+	}
+	for _, p := range c.Props {
+		if !propIDRe.MatchString(p) {
+			return nil, fmt.Errorf("%s:%d: bad property tag %q (a clause tagged with an unknown property would never be checked)", file, line, p)
 		}
 	}
 	e, err := parseExpr(rest)
